@@ -331,6 +331,9 @@ fn enumerate(cx: &Ctx<'_>, cl: Classes, equal_stats: bool, budget: &Budget) -> (
         let mut edges: Vec<(u32, u32)> = Vec::with_capacity(k);
         let mut local = 0u64;
         for low in 0..(1u64 << chunk_bits) {
+            if low & 255 == 255 && budget.exceeded() {
+                break;
+            }
             let m = ((c as u64) << chunk_bits | low) as u32;
             // orbit representative = smallest mask of the orbit
             let canonical = tables.iter().all(|t| {
@@ -452,7 +455,7 @@ fn main() {
     let fallbacks = AtomicU64::new(0);
     let hist = Mutex::new(BTreeMap::new());
     let cx = Ctx { run: &run, col: &col, distinct: &distinct, computes: &computes, fallbacks: &fallbacks, hist: &hist };
-    let budget = Budget::new(Duration::from_secs(run.tier.pick(50, 1700)));
+    let budget = Budget::new(Duration::from_secs(run.tier.pick(40, 1700)));
 
     // ---- family P first (small, covers the size thresholds) -------------------------------------------------------
     let clique_max = run.tier.pick(101, 1000);
